@@ -11,7 +11,8 @@ RULE = ("enum (configuration sweep): a fixed list of operation scripts (evaluate
         "elevate+reduce, split, split+join, + - * /, fit_curve, fit_points, default Integrate.scalar) x every knot vector of "
         "the alphabets (degree <= 3, <= 2 interior knots; plus the large-numerator alphabet K4) x representation in "
         "{Fraction, int control points, Python float, numpy float64 scalars, numpy arrays} and a minimal user point type "
-        "(only point+point and scalar*point) for evaluation, insertion, elevation and splitting. Oracle: Fraction runs must "
+        "(only point+point and scalar*point) for evaluation, insertion, elevation and splitting; the float runs are executed "
+        "before the exact run of the same script on the same knot values (history across representations). Oracle: Fraction runs must "
         "produce only int/Fraction numbers (type walk over knots, control points, weights, returned values) and equal the "
         "reference exactly; float runs must have the same outcome class and agree with the exact values to 1e-9 relative. "
         "state = (knot vector, script, representation); transition = one script execution compared; non-trivial = distinct "
@@ -245,6 +246,9 @@ def run_case(case, res):
         res.transition()
         tags = dict(script=name, big=big)
         where = f"script {name} on U={[str(k) for k in U]} P={P}"
+        # the float representations run FIRST: a result that depends on what was computed before on numerically equal data
+        # of another number type (a value-keyed cache, a shared scratch table) then shows up in the exact run
+        pre = {} if big else {rep: lib.outcome(run_script, name, U, p, P, rep) for rep in FLOAT_REPS}
         o = lib.outcome(run_script, name, U, p, P, "frac")
         res.state((tuple(U), name, "frac"))
         res.nontriv((tuple(U), name, "frac"))
@@ -288,7 +292,7 @@ def run_case(case, res):
                     res.violation("representation_dependent", f"{where}: int control points give different values", rep="intpts", **tags)
         for rep in FLOAT_REPS:
             res.transition()
-            of = lib.outcome(run_script, name, U, p, P, rep)
+            of = pre[rep]
             res.state((tuple(U), name, rep))
             res.nontriv((tuple(U), name, rep))
             res.outcome(f"{rep}:{name}:{'ok' if of[0] == 'ok' else of[1]}")
